@@ -20,7 +20,7 @@ if [ -z "$ULID_SRC" ] || [ ! -f "$ULID_SRC/ulid.go" ]; then echo "build.sh: oklo
 mkdir -p "$S/deps/ulid"
 cp "$ULID_SRC/ulid.go" "$ULID_SRC/go.mod" "$S/deps/ulid/"
 chmod -R u+w "$S/deps"
-$V/bin/instrument -root "$S/deps/ulid" . > "$S/instrument-deps.jsonl"
+$V/bin/instrument -zerovars -root "$S/deps/ulid" . > "$S/instrument-deps.jsonl"
 (cd $V/sim/overlay && find . -name '*.go' | while read f; do mkdir -p "$S/repo/$(dirname $f)"; cp "$f" "$S/repo/$f"; done)
 python3 - "$S" <<'PY'
 import sys
